@@ -44,9 +44,6 @@ def floors(tier):
 def eligible(t):
     if t.is_cfgval():
         return False
-    for k in t.defn:
-        if k.startswith("_HP"):
-            return False
     return not G.audit_fatal(t.defn)
 
 
